@@ -994,25 +994,40 @@ fn mode_outcomes(r: &mut Runner) {
             }
         }
     }
-    // panic storms: long runs of consecutive panics (no successfully handled metric in between), then normal traffic
     if shard == 0 || shards == 1 {
-        for (n_panics, cap) in [(140usize, None), (300, None), (200, Some(512usize))] {
-            let mut ops: Vec<SOp> = (0..n_panics).map(|_| SOp::Emit { h: 0, out: Out::Panic }).collect();
-            ops.push(SOp::Emit { h: 0, out: Out::Ok });
-            for _ in 0..3 {
-                ops.push(SOp::Release);
-            }
-            ops.push(SOp::Emit { h: 0, out: Out::Err(2) });
-            let sc = Scenario { cap, handler: true, ops };
-            r.run(&sc, "panic-storm");
-            r.rep().obs("panic_storm_histories", 1);
-        }
+        mode_panic_storm(r);
     }
     r.rep().exhaustive = Some(true);
     r.rep().note(format!("every assignment of {{{}}} to n <= {} metrics, in three arrangements (all queued before any outcome; one at a time; queued, released one by one, then a further metric accepted)", r.args.str("alphabet", "oep"), n_max));
 }
 
 static HOOKS: std::sync::atomic::AtomicBool = std::sync::atomic::AtomicBool::new(false);
+
+/// Panic storms: long runs of consecutive panics with no successfully handled metric in between, released one by one
+/// (so that each panic happens before the next emit), then normal traffic: the sink must keep accepting and delivering.
+fn mode_panic_storm(r: &mut Runner) {
+    for (n_panics, cap, batch) in [(140usize, None, 1usize), (300, None, 20), (200, Some(512usize), 7), (135, Some(4), 1)] {
+        let mut ops: Vec<SOp> = Vec::new();
+        let mut queued = 0;
+        for i in 0..n_panics {
+            ops.push(SOp::Emit { h: 0, out: Out::Panic });
+            queued += 1;
+            if queued == batch || i + 1 == n_panics {
+                for _ in 0..queued {
+                    ops.push(SOp::Release);
+                }
+                queued = 0;
+            }
+        }
+        ops.push(SOp::Emit { h: 0, out: Out::Ok });
+        ops.push(SOp::Release);
+        ops.push(SOp::Emit { h: 0, out: Out::Err(2) });
+        ops.push(SOp::Emit { h: 0, out: Out::Ok });
+        let sc = Scenario { cap, handler: true, ops };
+        r.run(&sc, "panic-storm");
+        r.rep().obs("panic_storm_histories", 1);
+    }
+}
 
 fn main() {
     let args = Args::from_env();
@@ -1056,6 +1071,7 @@ fn main() {
             "seq-random" => mode_seq_random(&mut runner),
             "drop-matrix" => mode_drop_matrix(&mut runner),
             "outcomes" => mode_outcomes(&mut runner),
+            "panic-storm" => mode_panic_storm(&mut runner),
             "seq-one" => {
                 let sc = Scenario {
                     cap: parse_cap(&args.str("cap", "unbounded")),
